@@ -245,6 +245,11 @@ class Actor(object):
                 bar.advance(2)
                 bar.finish()
                 io.error_line("")
+            elif k == "stateful":
+                # state kept on the handler object itself
+                self.uses = getattr(self, "uses", 0) + 1
+                rec["uses"] = self.uses
+                io.write_line("use #%d of this handler object" % self.uses)
             elif k == "close_io":
                 io.close()  # the handler is done with the console (it detaches, it redirected its output)
             elif k == "mutate_args":
@@ -346,6 +351,14 @@ def build_app(spec, scripts, log, listeners=(), raiser=None, config_hook=None, h
                 return cb.ah.handle(params[0], params[1], params[2] if len(params) > 2 else None)
             cb.ah = ah
             cc.set_handler(CallbackHandler(cb))
+        elif hk == "factory":
+            # a zero-argument callable: clikit asks it for a handler whenever it needs one, so every
+            # run gets a handler object of its own (and so does a freshly built application)
+            cc.set_handler(lambda _c=cmd: ActorHandler(Actor(_c["hid"], scripts.get(str(_c["hid"]), scripts.get(_c["hid"], [])), log, raiser)))
+        elif hk == "factory_raises":
+            def broken():
+                raise RuntimeError("the handler of this command cannot be built")
+            cc.set_handler(broken)
         else:
             cc.set_handler(ah)
         for s in cmd["subs"]:
